@@ -122,7 +122,7 @@ CHECKS["C09"] = {
 CHECKS["C07"] = {
     "text": "PARTIAL. Explicit TLA+ specification (spec/Helmert.tla) of Helmert parameter assembly (alias keys, convention/t_epoch requirements, t_obs folding), the per-tuple time evolution P + (t-t_epoch)*dP in exact integer arithmetic, the small-angle rotation as integer skew matrices per EPSG convention, and an application machine structured like the code. TLC checks alias-independence of the resolved record, own-epoch evaluation independent of set order, untouched fourth element, exact Inv after Fwd on the translation/rate part, t_obs = per-tuple epoch, dynamic = static-at-P(t), and the convention transposition relations; all enumerated definitions and coordinate sets (mixed, repeated, out-of-order epochs) are replayed into the real operator: exactly on integer data, bit-identically between alias spellings, and to 1e-9 m + 8 ulp for algebraic relations and small-angle linear forms; assembled parameters compared through params().",
     "design_ref": "DESIGN.md §5.7",
-    "note": "Not claimed: that R is a proper rotation in exact mode, distance scaling, the second-order error of the small-angle inverse, Molodensky accuracy (floating-point claims without discrete content). Bounded: quick 896 parameter cores x sets <= 3 tuples x 3 epochs; thorough 3-value parameter pools, sets <= 4 (translation/rate) / 3 tuples x epochs {1995, 2000, 2002, NaN}. A dynamic definition without t_epoch is only required not to panic. 1e-9 m alone is below one ulp at 1e7 m, hence + 8 ulp.",
+    "note": "Exact mode is checked to be a similarity of the scale the specification derives (Gram matrix of the images of an orthogonal frame, 1e-12), the small-angle round trip to stay within |r(t)|^2 |x|. Not claimed: Molodensky accuracy (no published figure in the documentation). Bounded: quick 896 parameter cores x sets <= 3 tuples x 3 epochs; thorough 3-value parameter pools, sets <= 4 (translation/rate) / 3 tuples x epochs {1995, 2000, 2002, NaN}. A dynamic definition without t_epoch is only required not to panic. 1e-9 m alone is below one ulp at 1e7 m, hence + 8 ulp.",
     "technique": "TLA+ spec + TLC exhaustive enumeration; TLC-generated behaviours replayed into the real operator (exact, relational and linear-form comparison)",
 }
 CHECKS["C13"] = {
